@@ -43,6 +43,37 @@ def facts(c):
     return True
 
 
+# every place of txnkv/transaction that asks the oracle for a timestamp, with the enclosing function (hand-written
+# expectation; regenerated from the source on every run by `facts callsites`). The commit-ts fetches must go through
+# KVTxn.GetTimestampForCommit; the three plain GetTimestampWithRetry users are not commit timestamps.
+EXPECTED_TS_SITES = sorted([
+    "2pc.go\tkeepAlive\tc.store.GetTimestampWithRetry",                                        # ttl heartbeat: current ts for the lock ttl
+    "2pc.go\ttwoPhaseCommitter.checkSchemaOnAssertionFail\tc.store.GetTimestampWithRetry",      # schema re-check
+    "2pc.go\ttwoPhaseCommitter.execute\tc.txn.GetTimestampForCommit",                           # async commit / 1PC: min_commit_ts
+    "2pc.go\ttwoPhaseCommitter.execute\tc.txn.GetTimestampForCommit",                           # ordinary 2PC commit ts
+    "commit.go\tactionCommit.handleSingleBatch\tc.txn.GetTimestampForCommit",                   # CommitTsExpired retry
+    "pipelined_flush.go\ttwoPhaseCommitter.commitFlushedMutations\tc.txn.GetTimestampForCommit",  # pipelined commit ts
+    "txn.go\tKVTxn.GetTimestampForCommit\ttxn.store.GetTimestampWithRetry",                     # the wait loop itself: first attempt
+    "txn.go\tKVTxn.GetTimestampForCommit\ttxn.store.GetTimestampWithRetry",                     # … and the retries
+    "txn.go\tKVTxn.LockKeysWithWaitTime\ttxn.store.GetTimestampWithRetry",                      # for_update_ts of a pessimistic lock
+])
+
+
+def ts_sites(c):
+    out = c.facts_raw(["callsites", os.path.join(vcheck.REPO, "txnkv/transaction"),
+                       "GetTimestampWithRetry", "getTimestampWithRetry", "GetTimestampForCommit"])
+    if out is None:
+        return
+    got = sorted(l for l in out.splitlines() if l.strip())
+    if got != EXPECTED_TS_SITES:
+        extra = [l.replace("\t", " | ") for l in got if got.count(l) > EXPECTED_TS_SITES.count(l)]
+        missing = [l.replace("\t", " | ") for l in EXPECTED_TS_SITES if EXPECTED_TS_SITES.count(l) > got.count(l)]
+        c.problems.append(Problem("tie", "the timestamp fetch sites of txnkv/transaction differ from the list the commit-path model was written against",
+                                  sorted(set(["unexpected: " + x for x in extra] + ["missing: " + x for x in missing])),
+                                  "a commit timestamp (or min_commit_ts) must be obtained through KVTxn.GetTimestampForCommit; review the commit-path family and EXPECTED_TS_SITES"))
+    c.cov["commit_ts_fetch_sites"] = [l.replace("\t", " | ") for l in got]
+
+
 def setup(c):
     c.cov["rule"] = ("op lines against the real pdOracle behind a scripted pd.Client (responses released by the script): "
                      "every schedule of start/issue/arrive events for 1..3 actors of kinds {GetTimestamp, ValidateReadTS of the newest issued ts, of the next ts, of a far-future ts, "
@@ -56,6 +87,10 @@ def setup(c):
                      "(cached ts monotone and <= max issued, real-time order of returned ts, accept => readTS <= issued at end, reject => readTS > issued before the call); "
                      "p-exp: IsExpired <=> UntilExpired <= 0 on boundary lock/ttl values; compose/extract; nextUpdateInterval / SetLowResolutionTimestampUpdateInterval on "
                      "boundary durations with the bounds as property op; GetTimestampForCommit through a real KVTxn with a scripted PD and skipped back-off sleeps; "
+                     "commit-path family (chk-commitwait): REAL transactions committed through ordinary 2PC, async commit, 1PC (each also with causal consistency), pipelined, "
+                     "the CommitTsExpired retry and the async/1PC->2PC fallback against the scripted PD with a commit-wait constraint {none, below current, slightly ahead within the budget, far ahead} "
+                     "x wait budget {0, 1s, 5ms, sub-millisecond}; the store side is a stub that accepts every transactional request; FAIL when a commit succeeds at ts <= constraint or sends min_commit_ts <= constraint; "
+                     "the list of timestamp fetch sites of txnkv/transaction is regenerated and compared with the hand-written expectation on every run; "
                      "free-running stress of 2..16 goroutines; distinct = distinct op lines")
     c.assumptions = [
         "singleflight.Group obeys its contract: join-or-start is atomic; the key is deleted in the same atomic step in which the result is handed to the callers that joined (golang.org/x/sync is not modelled)",
@@ -69,6 +104,8 @@ def setup(c):
         "(export VerifTriggerUpdate) with an hour-long ticker period; the ticker timing itself and the interplay of stale-read signals with the ticker are not modelled (stale-flagged validations are not generated in worlds with the updater)",
         "the load/CAS window of setLastTS is covered by the theorems (all interleavings of the model's steps) and by the free-running stress op only: the harness cannot pause a goroutine inside setLastTS without a source hook",
         "validate_accepts_past is a safety statement (never ErrFutureTSRead); termination of ValidateReadTS needs fairness of PD and is not stated",
+        "commit paths: the store side of chk-commitwait is a stub (accepts prewrite/commit/flush/resolve, echoes min_commit_ts, can reject the first primary commit with CommitTsExpired or refuse async commit/1PC); "
+        "max_commit_ts / schema checks and pessimistic for_update_ts fetches are not part of the family",
         "commit-wait: GetTimestamp errors inside the loop (BoPDRPC back-off with jitter) are not modelled; time.Sub saturation is modelled",
         "nextUpdateInterval: the recovery increment Duration(seconds*float64(20ms)) is computed with IEEE doubles in the driver (Lean Float) and enters the theorem as an arbitrary non-negative integer",
     ]
@@ -77,6 +114,7 @@ def setup(c):
 def run(a):
     c = Check(PID, a.tier, a.seed)
     setup(c)
+    ts_sites(c)
     if facts(c):
         exe = c.build_driver("cgv-c13")
         hbin = c.build_harness("c13")
